@@ -173,7 +173,8 @@ KF_C03_7_Edge(X, e) ==
   /\ LET x == UnitAt(X, e.s[1], e.s[2])
      IN  /\ x.k = "ret" /\ x.src = "orig"
          /\ \E b \in Range(AllBlocks(X.t.pre)) :
-               /\ WholeDeleted(X.t.pre, X.t.reqs, b.u)
+               \* (by one request, or by several partial deletions that cover all its units)
+               /\ (WholeDeleted(X.t.pre, X.t.reqs, b.u) \/ AllUnitsDeleted(X.t.pre, X.t.reqs, b.u))
                /\ \E c \in Range(AllBlocks(X.t.pre)) :
                      LastKind(c) = "call" /\ c.units[Len(c.units)].tg \in Range(b.ss)
 
